@@ -3,6 +3,6 @@
 P=$1; shift
 git -C /repo apply "$P" || { echo "patch does not apply"; exit 9; }
 for id in "$@"; do
-  cd /verif && ./check $id > /tmp/try_$id.out 2>&1; echo "$id exit=$? :: $(grep -E 'VIOLATION|UNDECIDED|ENGINE' /tmp/try_$id.out | head -4 | tr '\n' '|')"
+  cd /verif && VERIF_EVIDENCE_DIR=/tmp/try_evidence ./check $id > /tmp/try_$id.out 2>&1; echo "$id exit=$? :: $(grep -E 'VIOLATION|UNDECIDED|ENGINE' /tmp/try_$id.out | head -4 | tr '\n' '|')"
 done
 git -C /repo checkout -- .
